@@ -54,6 +54,18 @@ VARIANTS = [
     ("prefix-list-copy-then-extend", S, None, [(IP, "            preserve_prefixes = list(preserve_prefixes) + list(preserve_addresses)\n", "            preserve_prefixes = list(preserve_prefixes)\n            preserve_prefixes.extend(preserve_addresses)\n")]),
     ("prefix-list-slice-copy", S, None, [(IP, "            preserve_prefixes = list(preserve_prefixes) + list(preserve_addresses)\n", "            preserve_prefixes = preserve_prefixes[:] + list(preserve_addresses)\n")]),
     ("default-prefix-list-shared-readonly", S, None, [(IP, "            preserve_prefixes = list(self.DEFAULT_PRESERVED_PREFIXES)\n", "            preserve_prefixes = self.DEFAULT_PRESERVED_PREFIXES\n")]),
+    ("merge-or-precedence", F, ["C05", "C19", "C04", "C16"], [(NC, "addrs if preserve_addresses is None else (preserve_addresses + addrs)", "preserve_addresses or [] + addrs")]),
+    ("merge-or-parenthesised", S, None, [(NC, "addrs if preserve_addresses is None else (preserve_addresses + addrs)", "(preserve_addresses or []) + addrs")]),
+    ("missing-output-tested-with-is-none", F, ["C19"], [(NC, "    if not args.output:", "    if args.output is None:")]),
+    ("missing-output-none-or-empty", S, None, [(NC, "    if not args.output:", '    if args.output is None or args.output == "":')]),
+    ("mutable-default-accumulates", F, ["C10", "C13"], [(SI, "    def _generate_conflicting_reserved_word_list(self, sensitive_words):", "    def _generate_conflicting_reserved_word_list(self, sensitive_words, conflicting_words=set()):"), (SI, '        """Return a list of reserved words that may conflict with the specified sensitive words."""\n        conflicting_words = set()\n', '        """Return a list of reserved words that may conflict with the specified sensitive words."""\n')]),
+    ("lru-cache-on-mkdirs", F, ["C13"], [(AF, "def _mkdirs(file_path):", "@functools.lru_cache(maxsize=None)\ndef _mkdirs(file_path):"), (AF, "import errno\n", "import errno\nimport functools\n")]),
+    ("lru-cache-on-pure-salter", S, None, [(IP, "def _generate_bit_from_hash(salt, string):", "@functools.lru_cache(maxsize=None)\ndef _generate_bit_from_hash(salt, string):"), (IP, "import ipaddress\n", "import functools\nimport ipaddress\n")]),
+    ("decrypt-only-when-lookup-nonempty", F, ["C08"], [(SI, "    if val.startswith(juniper_secrets.MAGIC):", "    if lookup and val.startswith(juniper_secrets.MAGIC):")]),
+    ("v6-gate-skips-link-local", F, ["C01", "C05"], [(IP, '        """Check if a given address should be anonymized."""\n        return True', '        """Check if a given address should be anonymized."""\n        return not ipaddress.ip_address(ip_int).is_link_local')]),
+    ("pwd-stage-off-under-undo", F, ["C07", "C15"], [(AF, "        if anon_pwd:", "        if anon_pwd and not undo_ip_anon:")]),
+    ("digit-prefilter-on-ip-stages", F, ["C02", "C06"], [(AF, "            if self.anonymizer6 is not None:", "            if self.anonymizer6 is not None and any(c.isdigit() for c in output_line):")]),
+    ("decode-lstrip-magic", F, ["C14", "C18", "C08"], [(JS, "    chars = crypt[len(MAGIC) :]", "    chars = crypt.lstrip(MAGIC)")]),
     ("reserved-set-updated-in-place", F, ["C15", "C13"], [(SI, "        self.reserved_words = {w.lower() for w in reserved_words}\n", "        self.reserved_words = reserved_words\n        self.reserved_words |= {w.lower() for w in reserved_words}\n")]),
     ("private-merged-only-when-absent", F, ["C05", "C19"], [(NC, "addrs if preserve_addresses is None else (preserve_addresses + addrs)", "addrs if preserve_addresses is None else preserve_addresses")]),
     ("dump-before-loop-filter-ge", F, ["C17"], [(IP, "if len(bits) == self.length", "if len(bits) >= self.length - 1")]),
